@@ -134,7 +134,7 @@ def generate(tier):
                     for prior in PRIOR:
                         cases.append({"net": net, "ks": list(ks), "c": c, "y0": y0m, "tol": 1e-6, "rel": rel, "via": "simulator-continued", "prior": prior, "stable": True})
     for net, ks_list, cs in (("influx-only", [[0.0]], [0.001, 1.0, 2.0]), ("noefflux", [[k] for k in rates], [1.0, 2.0]),
-                             ("growth", [[0.02], [0.1], [1.0]], [0.0])):
+                             ("growth", [[0.02], [0.1], [1.0], [5.0], [10.0], [50.0]], [0.0])):
         for ks in ks_list:
             for c in cs:
                 for y0m, tol, rel in it.product(Y0MODES, TOLS, (False, True)):
@@ -144,6 +144,8 @@ def generate(tier):
                 for rel in (False, True):
                     cases.append({"net": net, "ks": ks, "c": c, "y0": "default", "tol": 1e-6, "rel": rel, "via": "scan", "stable": False})
                     for prior in PRIOR:
+                        if net == "growth" and ks[0] * prior > 100:
+                            continue  # the earlier segment itself would leave the floating point range (not this property's subject)
                         cases.append({"net": net, "ks": ks, "c": c, "y0": "default", "tol": 1e-6, "rel": rel, "via": "simulator-continued", "prior": prior, "stable": False})
     return cases
 
